@@ -415,7 +415,7 @@ async def relogin_mid_transfer(net, hyg, plan):
     viol = []
     L, size, d = plan["L"], plan["size"], plan["direction"]
     key = ("write" if d == "download" else "read") + "_speed_limit" + ("_per_connection" if plan["level"] == "user_connection" else "")
-    users = [aioftp.User("slow", None, base_path="/", **{key: L}), aioftp.User("free", None, base_path="/")]
+    users = [aioftp.User("slow", None, base_path="/", **{key: L}), aioftp.User("free", plan.get("free_password"), base_path="/")]
     w = W.World(net, tree={"/f.bin": payload_bytes(size, 2)}, users=users)
     await w.start()
     try:
@@ -424,12 +424,21 @@ async def relogin_mid_transfer(net, hyg, plan):
         for ln in ("USER slow", "TYPE I"):
             await p.cmd(ln)
         port = p.parse_epsv(await p.cmd("EPSV"))
+        before_data = plan.get("when") == "before_data"
+        if before_data:
+            # the transfer command is accepted (150) while no data connection exists; USER for the other account (answered 230,
+            # or 331 and no password ever given); only then the data connection: the transfer is the limited account's
+            r1 = await p.cmd("RETR /f.bin" if d == "download" else "STOR /up.bin")
+            r2 = await p.cmd("USER free")
+            if r1 in (None, "EOF") or r1.code != "150" or r2 in (None, "EOF") or r2.code not in ("230", "331"):
+                viol.append({"key": "relogin-transfer-failed", "msg": f"{plan}: transfer command -> {r1}, USER free -> {r2}"})
         dr, dw = await p.open_data(port)
         t0 = loop.time()
         moved = 0
         if d == "download":
-            p.send("RETR /f.bin")
-            sent_user = False
+            if not before_data:
+                p.send("RETR /f.bin")
+            sent_user = before_data
             while True:
                 b = await asyncio.wait_for(dr.read(8192), 120)
                 if not b:
@@ -440,12 +449,13 @@ async def relogin_mid_transfer(net, hyg, plan):
                     p.send("USER free")
             dw.close()
         else:
-            p.send("STOR /up.bin")
+            if not before_data:
+                p.send("STOR /up.bin")
             payload = payload_bytes(size, 3)
             for off in range(0, size, 8192):
                 dw.write(payload[off:off + 8192])
                 await asyncio.wait_for(dw.drain(), 120)
-                if off == (size // 8) // 8192 * 8192:
+                if off == (size // 8) // 8192 * 8192 and not before_data:
                     p.send("USER free")
             dw.close()
             await p.read_data(dr, wait=120)
@@ -461,8 +471,9 @@ async def relogin_mid_transfer(net, hyg, plan):
             viol.append({"key": "relogin-transfer-failed", "msg": f"{plan}: {moved} of {size} bytes moved"})
         elif dur < lower:
             viol.append({"key": f"faster-than-limit-allows:relogin-mid-transfer:{plan['level']}",
-                         "msg": f"{plan}: a transfer of {size} bytes begun under {key}={L}, USER for an unlimited account sent after an "
-                                f"eighth of it: done in {dur:.3f}s, the limit needs at least {lower:.3f}s"})
+                         "msg": f"{plan}: a transfer of {size} bytes begun under {key}={L}, USER for an unlimited account sent "
+                                f"{'after the 150 and before the data connection was made' if before_data else 'after an eighth of it'}: "
+                                f"done in {dur:.3f}s, the limit needs at least {lower:.3f}s"})
         p.cut("fin")
         await w.stop()
         return {"violations": viol, "monitors": mon, "sig": sig_of(plan), "nontrivial": True,
@@ -738,6 +749,9 @@ def gen_cases(tier, seed):
         for d in ("download", "upload"):
             rel.append({"kind": "relogin_mid_transfer", "seed": seed, "level": level, "direction": d, "L": rng.choice([100000, 200000]),
                         "size": rng.choice([400000, 600000])})
+            for fp in (None, "secret"):
+                rel.append({"kind": "relogin_mid_transfer", "seed": seed, "level": level, "direction": d, "L": [100000, 200000][len(rel) % 2],
+                            "size": [400000, 600000][len(rel) % 2], "when": "before_data", "free_password": fp})
     per = 40
     api = [p for p in plans if p["kind"] == "api"]
     ee = [p for p in plans if p["kind"] == "e2e"]
